@@ -124,9 +124,15 @@ func genC07(o *vcoq.Out, r *vcoq.Rand, tier string) error {
 		g.enterLeaveSeq()
 	}
 	// monitor part
-	for rep := 0; rep < 5*scale; rep++ {
-		for _, spec := range modelSpecs {
-			g.modelSeq(spec, 24)
+	for _, spec := range modelSpecs {
+		// models with many methods get longer and more histories (electricpb: 20 methods)
+		nm := numMethods(spec)
+		reps, nOps := 5+nm, 24
+		if nm > 8 {
+			nOps = 3 * nm
+		}
+		for rep := 0; rep < reps*scale; rep++ {
+			g.modelSeq(spec, nOps)
 		}
 	}
 	g.scenarios()
